@@ -527,6 +527,61 @@ PROPERTIES["C10"]["jobs"] += [
 ]
 PROPERTIES["C10"]["explanation"] += " Repeated in the no-SIMD build (K3: every ranker reaches the portable prefilter and its absolute-rank cut-off) and the SSE2-only build (K4)."
 
+
+
+import work as WORK  # noqa: E402
+
+PROPERTIES.update({
+    "C13": {
+        "engine": "wk under valgrind/callgrind",
+        "technique": "exhaustive enumeration of a declared grid of adversarial (family, size) instances executed on the real code, work measured as exact instruction counts (callgrind) against a declared linear budget",
+        "rule": "an instance is (operation, adversarial family, haystack size n, needle size m); the grid is enumerated completely, one callgrind process per instance",
+        "explanation": "Work is observed, not inferred: each instance runs Finder::new+find, FinderRev::new+rfind, complete find_iter / rfind_iter traversals or one-shot memmem::find/rfind inside one function whose executed-instruction count (Ir) callgrind reports exactly and deterministically, so every loop - including ones a change adds - is seen without hooks. Families: a^(m-1)b in a^n, in (a^(m-1)c)^r and in (a^(m-2)b^(m-1))^r (every a is a vector-searcher candidate that fails late: the family on which the 32-byte cap matters), b a^(m-1) in a^n, a^m in a^n (dense matches), periodic needles in haystacks of their near-periods, Fibonacci and Thue-Morse words, needles whose two rare bytes recur at every position, a huge candidate-free prefix followed by dense late-failing false candidates (keeps the adaptive prefilter on), Rabin-Karp's 2^32-collision needle a^(m-33)ba^32, a small-period needle against blocks of its own period, and dense matches of 0/1/2-byte needles; sizes n in {2^12, 2^15} (thorough: up to 2^20) x m in {8,32,33,250,1000,4000} (thorough: up to 16000). Verdict: Ir <= 256*(n+m) + 50000 for every instance (worst ratio on the unchanged tree: 102 Ir per byte, the per-match call overhead of rfind_iter over dense 1-byte matches). Super-linear work per byte grows with m without bound, so a fixed constant separates as long as the grid contains large m.",
+        "assumptions": ["instruction count under callgrind is the measure of 'elementary steps' (a change that is linear but with a larger constant stays below the budget: it is not a violation)", "the budget constants are declared in bin/work.py, not fitted at run time", "a bound on enumerated families and sizes, not an asymptotic proof"],
+        "jobs": [{"name": "work/callgrind", "handler": WORK.handler, "classes": None}],
+    },
+})
+
+
+
+# SF space (short needles x pairs of near-occurrences, padded past the
+# Rabin-Karp cut-off) - added after independently written changes to the
+# Two-Way small-period code showed that haystacks >= 16 bytes with foreign
+# bytes between near-occurrences were not reached by the E-spaces.
+def sf(build, subjects, classes, name, extra=None):
+    return {"name": name, "build": build, "classes": classes, "args": ["sf", "--tier", "{tier}", "--subjects", subjects] + (extra or [])}
+
+
+PROPERTIES["C03"]["jobs"] += [
+    sf(B("ss"), FWD, RESULT, "ss/SF/fwd"),
+    sf(V("ss", "k3"), FWD + ",twoway", RESULT, "ss[k3]/SF/fwd (Two-Way + portable prefilter)"),
+    sf(K("ss", "k4"), "finder,memmem,iter-first", RESULT, "ss[k4]/SF/fwd"),
+    sf(V("ss", "k7"), "finder,memmem", RESULT, "ss[k7]/SF/fwd"),
+]
+PROPERTIES["C03"]["rule"] += "; SF (every needle of 2..=5 (6) letters over {a,b,c} x pairs of its own near-occurrences - needle, every single-byte change, every proper prefix/suffix - x gaps of <= 2 letters x pad grid)"
+PROPERTIES["C04"]["jobs"] += [
+    sf(B("ss"), REV, RESULT, "ss/SF/rev"),
+    sf(V("ss", "k3"), REV + ",rtwoway", RESULT, "ss[k3]/SF/rev"),
+]
+PROPERTIES["C04"]["rule"] += "; SF as in C03 (reverse Two-Way is used for every needle >= 2 bytes once the haystack has >= 16 bytes)"
+PROPERTIES["C12"]["jobs"] += [
+    sf(B("ss"), "twoway,rtwoway,rk,rrk,pp-sse2,pp-avx2,shiftor", RESULT, "ss/SF/blocks"),
+]
+PROPERTIES["C10"]["jobs"] += [
+    sf(V("ss", "k3"), ranked(["default", "zero", "max255", "needle-common", "needle-rare", "wo:012", "wo:210", "wo:001"], kinds=("ranked",)), RESULT, "ss[k3]/SF/rankers", ["--nmax", "4"]),
+]
+PROPERTIES["C08"]["jobs"] += [
+    {"name": "it[k3]/subs (Two-Way + portable prefilter for every needle)", "build": V("it", "k3"), "classes": RESULT, "args": ["subs", "--tier", "{tier}"]},
+    {"name": "it[k4]/subs (SSE2-only)", "build": {"bin": "it-k4", "package": "checks-k4", "profile": "release"}, "classes": RESULT, "args": ["subs", "--tier", "{tier}", "--families", "pad,pf"], "tiers": ("thorough",)},
+]
+PROPERTIES["C08"]["explanation"] += " Families added after seeded changes were missed: SF (short needles over {a,b,c} against pairs and triples of their own near-occurrences, padded past the 16-byte Rabin-Karp cut-off), LN with a change at every needle position, and PF+zoo (the prefilter is first driven inert, then the iterator meets every factor haystack of the needle). The whole walk is repeated in the no-SIMD build, where Two-Way with the portable prefilter serves every needle of >= 2 bytes."
+PROPERTIES["C06"]["jobs"] += [
+    {"name": "it[k7]/bytes (emulated NEON)", "build": V("it", "k7"), "classes": RESULT, "args": ["bytes", "--tier", "{tier}", "--kinds", "top1,top2,top3,neon-1,neon-2,neon-3", "--l1", "9", "--l23", "5"]},
+    {"name": "it[k8]/bytes (emulated simd128)", "build": V("it", "k8"), "classes": RESULT, "args": ["bytes", "--tier", "{tier}", "--kinds", "top1,top2,top3,simd128-1,simd128-2,simd128-3", "--l1", "9", "--l23", "5"]},
+    {"name": "it[k3]/bytes (dispatcher fallback)", "build": V("it", "k3"), "classes": RESULT, "args": ["bytes", "--tier", "{tier}", "--kinds", "top1,top2,top3", "--l1", "9", "--l23", "5"]},
+]
+PROPERTIES["C06"]["explanation"] += " Repeated for the emulated NEON and simd128 iterators and for the top-level iterators under the dispatcher's fallback outcome."
+
 HOOK_COMMITS = ["ffdf165", "556bbde", "0f24165", "8fa21ee"]
 
 ENGINES = [
@@ -544,6 +599,9 @@ ENGINES.append({"name": "loomcheck", "path": "/verif/harness/loomcheck/src/main.
 
 ENGINES.append({"name": "tx", "path": "/verif/harness/checks/src/bin/tx.rs", "serves_properties": ["C09"],
                 "kind_free_text": "top-level-API transcript compiled against every configuration of the crate (path-manifests, RUSTFLAGS, arch-rewritten copies with emulated intrinsics)"})
+
+ENGINES.append({"name": "wk", "path": "/verif/harness/checks/src/bin/wk.rs", "serves_properties": ["C13"],
+                "kind_free_text": "adversarial instance grid, work measured with valgrind --tool=callgrind --toggle-collect on one function"})
 
 NOT_CLAIMED = {}
 
